@@ -67,6 +67,24 @@ def forgeries(blob, rec):
     b = DPAPINGBlob.unpack(blob)
     ki = b.key_identifier.key_info
     out = []
+    def confusion():
+        if rec.secret_algorithm == "DH":
+            return
+        # algorithm confusion: the root key says ECDH, the forged key identifier carries an FFC-DH structure of a tiny group whose
+        # shared secret is 0 for every private key (the blob must not get to choose the key agreement)
+        for (kl2, p2, g2, y2) in ((1, 4, 2, 2), (2, 9, 2, 3), (32, 8, 2, 4), (1, 135, 2, 15)):
+            try:
+                shared = (0).to_bytes(kl2, "big")
+                secret = refimpl.concat_kdf("sha256", shared, refimpl.SHA512ID + refimpl.PUBLABEL + refimpl.LABEL, 32)
+                kek = refimpl.kbkdf_hmac(rec.hash_name.lower(), secret, refimpl.LABEL, refimpl.PUBLABEL, 32)
+                cek = hashlib.sha256(b"forger cek (confusion)").digest()
+                evil = b"forged by a party without keys"
+                kid = dataclasses.replace(b.key_identifier, flags=b.key_identifier.flags | 1, key_info=refimpl.ffc_key(kl2, p2, g2, y2))
+                fb = dataclasses.replace(b, key_identifier=kid, enc_cek=keywrap.aes_key_wrap(kek, cek), enc_content=AESGCM(cek).encrypt(b.enc_content_parameters[4:16], evil, None))
+                out.append((f"forgery:dh-structure-for-{rec.secret_algorithm}-root:kl={kl2},p={p2},y={y2}:bet=0", fb.pack()))
+            except Exception:  # noqa
+                pass
+
     if not b.key_identifier.is_public_key:
         # nonce mode: the forger bets that the receiver derives the KEK from a degenerate L2 key (empty / all zero) at some position
         for (l1, l2) in ((31, 31), (b.key_identifier.l1, b.key_identifier.l2), (0, 0), (31, 0), (0, 31)):
@@ -77,8 +95,12 @@ def forgeries(blob, rec):
                 kid = dataclasses.replace(b.key_identifier, l1=l1, l2=l2)
                 fb = dataclasses.replace(b, key_identifier=kid, enc_cek=keywrap.aes_key_wrap(kek, cek), enc_content=AESGCM(cek).encrypt(b.enc_content_parameters[4:16], evil, None))
                 out.append((f"forgery:position({l1},{l2}):l2key={'empty' if not l2key else 'zeros'}", fb.pack()))
+        confusion()
         return out
-    if rec.secret_algorithm != "DH" or ki[:4] != b"DHPB":
+    if rec.secret_algorithm != "DH":
+        confusion()
+        return out
+    if ki[:4] != b"DHPB":
         return []
     kl = struct.unpack_from("<I", ki, 4)[0]
     p_, g_ = int.from_bytes(ki[8:8 + kl], "big"), int.from_bytes(ki[8 + kl:8 + 2 * kl], "big")
